@@ -132,6 +132,16 @@ struct Node
     std::shared_ptr<Tree> t;
     Node() = default;
     explicit Node(std::shared_ptr<Tree> t) : t(std::move(t)) {}
+    // rules WITHOUT a functor construct the left-side value from the right-side values: LValueType(values...).
+    // The variadic constructor observes that call (a unit rule over a nonterminal is a plain move and has no event);
+    // the initializer_list constructor exists only to be observed if it is ever chosen instead.
+    template<typename T> struct is_val : std::bool_constant<std::is_same_v<std::decay_t<T>, Node> || std::is_same_v<std::decay_t<T>, ctpg::no_type>
+                                                         || std::is_same_v<std::decay_t<T>, ctpg::term_value<Node>>> {};
+    template<typename A0, typename... A,
+             typename = std::enable_if_t<(is_val<A0>::value && ... && is_val<A>::value)
+                                         && !(sizeof...(A) == 0 && !std::is_same_v<std::decay_t<A0>, ctpg::term_value<Node>>)>>
+    Node(A0&& a0, A&&... a);
+    Node(std::initializer_list<Node> il);
 };
 
 inline void jtree(std::string& o, const std::shared_ptr<Tree>& t)
@@ -197,6 +207,26 @@ inline void take_arg(Tree& parent, std::vector<long>& ids, std::vector<long>& li
     ids.push_back(-3); lines.push_back(tv.get_line()); cols.push_back(tv.get_column());
     auto tr = std::make_shared<Tree>(); tr->kind = 3; tr->sym = -1; tr->off = off; tr->len = long(sv.size()); tr->line = tv.get_line(); tr->col = tv.get_column();
     parent.ch.push_back(tr);
+}
+
+template<typename A0, typename... A, typename>
+Node::Node(A0&& a0, A&&... a)
+{
+    auto& L = tl_log;
+    auto tr = std::make_shared<Tree>();
+    tr->kind = 2; tr->sym = -1;
+    std::vector<long> ids, lines, cols;
+    take_arg(*tr, ids, lines, cols, std::move(a0));
+    (take_arg(*tr, ids, lines, cols, std::move(a)), ...);
+    tr->id = L.next_id++;
+    Event e; e.k = "dcall"; e.a = { tr->id }; e.lst = { ids, lines, cols };
+    L.add(std::move(e));
+    t = tr;
+}
+inline Node::Node(std::initializer_list<Node> il)
+{
+    Event e; e.k = "ilist"; e.a = { long(il.size()) };
+    tl_log.add(std::move(e));
 }
 
 // rule functor: logs the call with the ids of its arguments in order, builds the tree node
